@@ -364,7 +364,7 @@ func (ex *Exec) havocMods(fr *frame, st *State, reach *Term, ms *modSet, entry *
 		if !ms.nonfresh[name] && s.IsArray() && s.IndexSort() == SInt && !strings.HasPrefix(name, "IT.") {
 			// written only at objects allocated inside the loop: everything that existed at loop entry is unchanged
 			r := Sym("r!q", SInt)
-			ex.vc.Assume(reach, Forall([]*Term{r}, Implies(Select(ex.alive(entry), r), Eq(Select(nv, r), Select(old, r)))))
+			ex.vc.Assume(reach, frameFact(r, []*Term{Select(ex.alive(entry), r)}, Select(ex.alive(entry), r), nv, old))
 			continue
 		}
 		if precise && s.IsArray() && s.IndexSort() == SInt && !strings.HasPrefix(name, "IT.") {
@@ -386,7 +386,7 @@ func (ex *Exec) havocMods(fr *frame, st *State, reach *Term, ms *modSet, entry *
 				}
 			}
 			if !whole {
-				ex.vc.Assume(reach, Forall([]*Term{r}, Implies(And(append([]*Term{Select(ex.alive(entry), r)}, excl...)...), Eq(Select(nv, r), Select(old, r)))))
+				ex.vc.Assume(reach, frameFact(r, append([]*Term{Select(ex.alive(entry), r)}, excl...), Select(ex.alive(entry), r), nv, old))
 			}
 		}
 	}
@@ -532,7 +532,7 @@ func (ex *Exec) applyContract(fr *frame, st *State, reach *Term, fn *ssa.Functio
 				}
 				if !ms.nonfresh[name] && s.IsArray() && s.IndexSort() == SInt {
 					r := Sym("r!q", SInt)
-					ex.vc.Assume(reach, Forall([]*Term{r}, Implies(Select(ex.alive(pre), r), Eq(Select(nv, r), Select(oldc, r)))))
+					ex.vc.Assume(reach, frameFact(r, []*Term{Select(ex.alive(pre), r)}, Select(ex.alive(pre), r), nv, oldc))
 				}
 			}
 		}
@@ -1183,4 +1183,14 @@ func (ex *Exec) freshOnlyComps(fr *frame, final *State) map[string]bool {
 	}
 	ex.freshScan[fr.fn] = out
 	return out
+}
+
+// frameFact: "for every object r satisfying guard, component nv agrees with old at r" with two alternative
+// triggers: a read of the new component at r, or a known aliveness fact about r.
+func frameFact(r *Term, guard []*Term, aliveSel, nv, old *Term) *Term {
+	body := Implies(And(guard...), Eq(Select(nv, r), Select(old, r)))
+	if NoPatterns {
+		return Forall([]*Term{r}, body)
+	}
+	return &Term{Op: "forall", Bound: []*Term{r}, Args: []*Term{body}, Sort: SBool, Pats: [][]*Term{{Select(nv, r)}, {aliveSel}}}
 }
